@@ -48,6 +48,7 @@ func init() {
 			{Name: "suggest-level-of-other-name", File: "guidedremediation/internal/suggest/maven.go",
 				Old: "suggestMavenVersion(ctx, opts.ResolveClient, req, opts.UpgradeConfig.Get(req.Name))", New: "suggestMavenVersion(ctx, opts.ResolveClient, req, opts.UpgradeConfig.Get(req.Version))", Rule: "D2-right-level", Site: "Suggest"},
 		},
+		Neutral: c11Neutral,
 	})
 }
 
